@@ -80,6 +80,10 @@ impl<S: Read + Write> Client<S> {
     /// ```
     pub fn write<T: 'static>(&mut self, message: T) -> RdpResult<()>
     where T: Message {
+        // the header announces the size of the frame on 16 bits
+        if message.length() > (std::u16::MAX - 4) as u64 {
+            return Err(Error::RdpError(RdpError::new(RdpErrorKind::InvalidSize, "Message too large for a TPKT frame")))
+        }
         self.transport.write(
             &trame![
                 tpkt_header(message.length() as u16),
